@@ -6,15 +6,26 @@ package cache
 // They give the harness in core/stores/sqlc access to two package-private mechanisms:
 //   - the cleaner's package-level timing wheel: swapped for a wheel on a harness-owned ticker, so that the
 //     retries of failed deletes are driven tick by tick and joined deterministically;
-//   - the jitter source of a cacheNode's mathx.Unstable, so that the +/-5% draw is a harness input.
+//   - the jitter source of a cacheNode's mathx.Unstable, so that the +/-5% draw is a harness input;
+//   - the dispatch decision of a cacheCluster (which node a key is sent to), read-only.
 
 import (
+	"encoding/hex"
+	"fmt"
 	"math/rand"
 	"reflect"
+	"sort"
+	"strconv"
+	"strings"
+	"sync"
 	"time"
 	"unsafe"
 
+	"github.com/alicebob/miniredis/v2"
+	"github.com/alicebob/miniredis/v2/server"
 	"github.com/zeromicro/go-zero/core/collection"
+	"github.com/zeromicro/go-zero/core/stores/redis"
+	"github.com/zeromicro/go-zero/core/timex"
 )
 
 type verifC06Ticker struct{ c chan time.Time }
@@ -81,14 +92,373 @@ func (v *VerifC06Cleaner) Close() {
 	v.tw.Stop()
 }
 
-// VerifC06SetJitterSource makes the node's expiry jitter draw from src.
-func VerifC06SetJitterSource(c Cache, src rand.Source) {
-	node, ok := c.(cacheNode)
-	if !ok {
-		panic("verif: not a cacheNode")
+// verifC06Nodes returns the cacheNodes behind c: c itself, or — for a cacheCluster — the nodes its
+// dispatcher hands out (found by probing keys until `want` distinct nodes have shown up).
+func verifC06Nodes(c Cache, want int) []cacheNode {
+	switch x := c.(type) {
+	case cacheNode:
+		return []cacheNode{x}
+	case cacheCluster:
+		seen := map[string]cacheNode{}
+		for i := 0; len(seen) < want; i++ {
+			if i > 2000000 {
+				panic("verif: dispatcher does not reach every node")
+			}
+			n, ok := x.dispatcher.Get("\x00verif-probe-" + strconv.Itoa(i))
+			if !ok {
+				panic("verif: empty dispatcher")
+			}
+			cn := n.(cacheNode)
+			seen[cn.rds.Addr] = cn
+		}
+		out := make([]cacheNode, 0, len(seen))
+		for _, cn := range seen {
+			out = append(out, cn)
+		}
+		return out
 	}
-	u := node.unstableExpiry
-	f := reflect.ValueOf(&u).Elem().FieldByName("r")
-	rp := *(**rand.Rand)(unsafe.Pointer(f.UnsafeAddr()))
-	*rp = *rand.New(src)
+	panic("verif: unknown Cache implementation")
+}
+
+// VerifC06SetJitterSource makes the expiry jitter of every node behind c draw from src.
+func VerifC06SetJitterSource(c Cache, src rand.Source, nodes int) {
+	for _, node := range verifC06Nodes(c, nodes) {
+		u := node.unstableExpiry
+		f := reflect.ValueOf(&u).Elem().FieldByName("r")
+		rp := *(**rand.Rand)(unsafe.Pointer(f.UnsafeAddr()))
+		*rp = *rand.New(src)
+	}
+}
+
+// VerifC06NodeAddr observes the dispatch decision for key: the address of the Redis the key is sent to
+// (the ring of a cacheCluster is built from pointer values, so this differs from process to process).
+func VerifC06NodeAddr(c Cache, key string) string {
+	switch x := c.(type) {
+	case cacheNode:
+		return x.rds.Addr
+	case cacheCluster:
+		n, ok := x.dispatcher.Get(key)
+		if !ok {
+			panic("verif: empty dispatcher")
+		}
+		return n.(cacheNode).rds.Addr
+	}
+	panic("verif: unknown Cache implementation")
+}
+
+// VerifC06Kind tells which implementation cache.New chose.
+func VerifC06Kind(c Cache) string {
+	switch c.(type) {
+	case cacheNode:
+		return "node"
+	case cacheCluster:
+		return "cluster"
+	}
+	return "?"
+}
+
+// ---------------------------------------------------------------------------------------------------------
+// The Redis side of the C06 harnesses (shared by core/stores/sqlc and core/stores/monc): one miniredis per
+// cache node behind a fault-injecting, recording pre-hook; salted key names that realise the placement a
+// section asks for; per-node dumps. See the header of core/stores/sqlc/zz_verif_c06_test.go.
+
+// VerifC06Injected is the error a command answered by the fault hook fails with.
+const VerifC06Injected = "ERR verif injected outage"
+
+const (
+	VerifC06ModeOrder = iota // mask over the commands of the operation in issue order
+	VerifC06ModeNode         // one mask per node over the commands sent to that node
+	VerifC06ModeDown         // one bit per node: every command to the node fails
+)
+
+type verifC06Cmd struct {
+	name string
+	node int
+	keys []string // tokens
+	fail bool
+}
+
+func (c verifC06Cmd) String() string {
+	r := ":ok"
+	if c.fail {
+		r = ":fail"
+	}
+	return fmt.Sprintf("%s/%d/%s%s", c.name, c.node, strings.Join(c.keys, "+"), r)
+}
+
+// VerifC06Jitter is a rand.Source whose Float64 the harness scripts.
+type VerifC06Jitter struct{ v int64 }
+
+func (s *VerifC06Jitter) Int63() int64 { return s.v }
+func (s *VerifC06Jitter) Seed(int64)   {}
+
+// SetJ makes rand.Rand.Float64 return j/1000 (1000: the largest draw below 1).
+func (s *VerifC06Jitter) SetJ(j int) {
+	// rand.Rand.Float64 is float64(Int63()) / 2^63 (redrawn if it rounds to 1)
+	if j >= 1000 {
+		s.v = 1<<63 - 1024 // the largest draw: 1 - 2^-53
+	} else {
+		s.v = int64(j) * ((1 << 62) / 500)
+	}
+}
+
+// VerifC06Env is the set of Redis servers of one section.
+type VerifC06Env struct {
+	mu     sync.Mutex
+	mode   int
+	masks  []string
+	n      int
+	cnt    [8]int
+	log    []verifC06Cmd
+	tok    map[string]string // Redis key -> token
+	real   map[string]string // token -> Redis key (test goroutine only)
+	place  map[string]int
+	nodes  int
+	mrs    []*miniredis.Miniredis
+	nodeOf map[string]int // address -> node index
+	cache  Cache
+	Jitter *VerifC06Jitter
+}
+
+// VerifC06NewEnv starts `nodes` miniredis servers and returns the CacheConf naming them (weight 100 each,
+// Redis type typ); place is the section's `place=` value.
+func VerifC06NewEnv(nodes int, typ, place string) (*VerifC06Env, CacheConf) {
+	if nodes < 1 || nodes > 4 || (typ != redis.NodeType && typ != redis.ClusterType) {
+		panic("bad section cfg")
+	}
+	e := &VerifC06Env{tok: map[string]string{}, real: map[string]string{}, place: map[string]int{}, nodes: nodes,
+		nodeOf: map[string]int{}, Jitter: &VerifC06Jitter{}}
+	if place != "-" && place != "" {
+		for _, p := range strings.Split(place, ",") {
+			f := strings.Split(p, ":")
+			n, err := strconv.Atoi(f[1])
+			if err != nil || n < 0 || n >= nodes {
+				panic("place names a node that does not exist: " + p)
+			}
+			e.place[f[0]] = n
+		}
+	}
+	var conf CacheConf
+	for i := 0; i < nodes; i++ {
+		mr := miniredis.NewMiniRedis()
+		if err := mr.Start(); err != nil {
+			panic(err)
+		}
+		mr.Server().SetPreHook(e.hook(i))
+		e.mrs = append(e.mrs, mr)
+		e.nodeOf[mr.Addr()] = i
+		conf = append(conf, NodeConf{RedisConf: redis.RedisConf{Host: mr.Addr(), Type: typ}, Weight: 100})
+	}
+	return e, conf
+}
+
+// Attach hands the cache the real constructors built from the conf to the environment: checks that cache.New
+// chose a plain node for one server and a cluster otherwise, and scripts the jitter of every node.
+func (e *VerifC06Env) Attach(c Cache) {
+	want := "cluster"
+	if e.nodes == 1 {
+		want = "node"
+	}
+	if VerifC06Kind(c) != want {
+		panic("cache.New built a " + VerifC06Kind(c) + " for " + strconv.Itoa(e.nodes) + " node(s)")
+	}
+	e.cache = c
+	VerifC06SetJitterSource(c, e.Jitter, e.nodes)
+}
+
+// Key maps a key token (p1, x0) to its Redis key: the token salted so that the dispatcher sends it to the
+// node the section asks for. Not for concurrent use.
+func (e *VerifC06Env) Key(tok string) string {
+	if k, ok := e.real[tok]; ok {
+		return k
+	}
+	want := e.place[tok]
+	for salt := 0; salt < 100000; salt++ {
+		k := tok + "#" + strconv.Itoa(salt)
+		if e.nodeOf[VerifC06NodeAddr(e.cache, k)] == want {
+			e.real[tok] = k
+			e.mu.Lock()
+			e.tok[k] = tok
+			e.mu.Unlock()
+			return k
+		}
+	}
+	panic("no salt sends " + tok + " to node " + strconv.Itoa(want))
+}
+
+// Keys maps a comma-separated token list ("-" = none).
+func (e *VerifC06Env) Keys(toks string) []string {
+	if toks == "-" {
+		return nil
+	}
+	var out []string
+	for _, t := range strings.Split(toks, ",") {
+		out = append(out, e.Key(t))
+	}
+	return out
+}
+
+// Begin starts the command log and the fault plan of one operation.
+func (e *VerifC06Env) Begin(mode int, mask string) {
+	e.mu.Lock()
+	e.mode, e.n, e.log = mode, 0, nil
+	e.cnt = [8]int{}
+	e.masks = strings.Split(mask, "/")
+	e.mu.Unlock()
+}
+
+func (e *VerifC06Env) token(k string) string {
+	if t, ok := e.tok[k]; ok {
+		return t
+	}
+	return "raw:" + hex.EncodeToString([]byte(k))
+}
+
+func (e *VerifC06Env) next(node int, name string, keys []string) bool {
+	e.mu.Lock()
+	defer e.mu.Unlock()
+	fail := false
+	bit := func(m string, i int) bool { return i < len(m) && m[i] == '1' }
+	switch e.mode {
+	case VerifC06ModeOrder:
+		fail = bit(e.masks[0], e.n)
+	case VerifC06ModeNode:
+		fail = node < len(e.masks) && bit(e.masks[node], e.cnt[node])
+	case VerifC06ModeDown:
+		fail = bit(e.masks[0], node)
+	}
+	e.n++
+	e.cnt[node]++
+	toks := make([]string, len(keys))
+	for i, k := range keys {
+		toks[i] = e.token(k)
+	}
+	e.log = append(e.log, verifC06Cmd{name, node, toks, fail})
+	return fail
+}
+
+// Cmds prints the commands of the operation: "order" = as issued, "node" = stably sorted by node,
+// "text" = sorted by their text (the cleaner runs its retries concurrently).
+func (e *VerifC06Env) Cmds(how string) string {
+	e.mu.Lock()
+	defer e.mu.Unlock()
+	if len(e.log) == 0 {
+		return "-"
+	}
+	l := append([]verifC06Cmd(nil), e.log...)
+	if how == "node" {
+		sort.SliceStable(l, func(i, j int) bool { return l[i].node < l[j].node })
+	}
+	out := make([]string, len(l))
+	for i, c := range l {
+		out[i] = c.String()
+	}
+	if how == "text" {
+		sort.Strings(out)
+	}
+	return strings.Join(out, ",")
+}
+
+// hook is the miniredis pre-hook of cache node `node`.
+func (e *VerifC06Env) hook(node int) server.Hook {
+	return func(c *server.Peer, cmd string, args ...string) bool {
+		name := ""
+		var keys []string
+		switch cmd {
+		case "GET":
+			name, keys = "get", args[:1]
+		case "DEL":
+			name, keys = "del", args
+		case "SET":
+			name, keys = "set", args[:1]
+			// SETEX / SETNX EX are sent as SET with EX / NX arguments
+			for _, a := range args[2:] {
+				if a == "nx" || a == "NX" {
+					name = "setnx"
+				}
+			}
+		case "SETEX", "SETNX", "PSETEX", "GETDEL", "GETEX", "UNLINK", "EXPIRE", "PERSIST", "MSET", "MGET", "APPEND":
+			name, keys = strings.ToLower(cmd), args[:1] // not expected: shows up as an unknown command in the trace
+		default:
+			return false
+		}
+		// every command gets its own instant: the cleaner runs up to 5 retries at once and many can be due at
+		// the same tick, but no breaker window (10 s) ever holds more than the 5 requests in flight
+		timex.VerifAdvance(20 * time.Second)
+		if e.next(node, name, keys) {
+			c.WriteError(VerifC06Injected)
+			return true
+		}
+		return false
+	}
+}
+
+// VerifC06Canon prints a Redis value as a value token: * | r:<id>:<v>:<a> | k:<n> | j:<n> | raw:<hex>.
+func VerifC06Canon(raw string) string {
+	if raw == "*" {
+		return "*"
+	}
+	if strings.HasPrefix(raw, "!junk") {
+		if _, err := strconv.Atoi(raw[5:]); err == nil {
+			return "j:" + raw[5:]
+		}
+	}
+	if n, err := strconv.Atoi(raw); err == nil && strconv.Itoa(n) == raw {
+		return "k:" + raw
+	}
+	var id, v, a int
+	if n, err := fmt.Sscanf(raw, `{"Id":%d,"V":%d,"A":%d}`, &id, &v, &a); err == nil && n == 3 &&
+		fmt.Sprintf(`{"Id":%d,"V":%d,"A":%d}`, id, v, a) == raw {
+		return fmt.Sprintf("r:%d:%d:%d", id, v, a)
+	}
+	return "raw:" + hex.EncodeToString([]byte(raw))
+}
+
+// Dump prints every node's entries: node/key=value@ttl-ms, sorted.
+func (e *VerifC06Env) Dump() string {
+	var out []string
+	for i, mr := range e.mrs {
+		keys := mr.Keys()
+		ents := make([]string, 0, len(keys))
+		for _, k := range keys {
+			v, err := mr.Get(k)
+			if err != nil {
+				v = "?" + err.Error()
+			}
+			ttl := "inf"
+			if d := mr.TTL(k); d > 0 {
+				ttl = strconv.FormatInt(int64(d/time.Millisecond), 10)
+			}
+			e.mu.Lock()
+			t := e.token(k)
+			e.mu.Unlock()
+			ents = append(ents, fmt.Sprintf("%d/%s=%s@%s", i, t, VerifC06Canon(v), ttl))
+		}
+		sort.Strings(ents)
+		out = append(out, ents...)
+	}
+	return strings.Join(out, " ")
+}
+
+// Raw writes a value into the key's Redis behind the cache's back.
+func (e *VerifC06Env) Raw(tok, raw string, ttl time.Duration) {
+	mr := e.mrs[e.place[tok]]
+	if err := mr.Set(e.Key(tok), raw); err != nil {
+		panic(err)
+	}
+	mr.SetTTL(e.Key(tok), ttl)
+}
+
+// FastForward ages the entries of every node.
+func (e *VerifC06Env) FastForward(d time.Duration) {
+	for _, mr := range e.mrs {
+		mr.FastForward(d)
+	}
+}
+
+// Close stops the servers.
+func (e *VerifC06Env) Close() {
+	for _, mr := range e.mrs {
+		mr.Close()
+	}
 }
